@@ -3,6 +3,9 @@ import RegexVerif.Lemmas.Class
 import RegexVerif.Lemmas.ClassCanon
 import RegexVerif.Lemmas.ClassBuild
 import RegexVerif.Generated.Class
+import RegexVerif.Model.ClassQuery
+import RegexVerif.Lemmas.ClassQuery
+import RegexVerif.Generated.ClassQuery
 
 /-!
 C16 — character-class membership is exact set algebra.
@@ -297,5 +300,611 @@ example :
     let orbit : Nat → List Nat := fun i => if 97 ≤ i ∧ i ≤ 122 then [i - 32] else if 65 ≤ i ∧ i ≤ 90 then [i + 32] else []
     let c := Class.addCaseEquivalences sampleCat orbit (.minus { ranges := [(97, 122)] } (.leaf { ranges := [(98, 98)] }))
     memAlg sampleCat c 66 = false ∧ memAlg sampleCat c 98 = false ∧ memAlg sampleCat c 67 = true := by decide
+
+/-! ========================================================================================
+## The query functions (`Model/ClassQuery.lean`; leg Kq)
+
+The rewrites and the prefix analyses never ask only "is r a member": they ask `MayOverlap`, `Equals`,
+`IsSingleton`, `GetSetChars`, … .  Each theorem below states what an answer of the modelled function
+means for MEMBERSHIP (`memAlg`, which the theorems above tie to every lookup path).
+======================================================================================== -/
+
+/-- the constants of the source: the three category names are parameters (symbolic), the rune tables are the
+regenerated ones -/
+def srcConsts (space word nd : Nat) : Consts :=
+  { space := space, word := word, nd := nd, ecmaSpace := RegexVerif.Generated.ecmaSpace,
+    ecmaWord := RegexVerif.Generated.ecmaWord, ecmaDigit := RegexVerif.Generated.ecmaDigit,
+    whitespaceChars := RegexVerif.Generated.whitespaceChars }
+
+/-- a toy oracle for the examples: category 0 = {32}, category 1 = letters a-z, category 2 = digits 0-9 -/
+def toyCat : Nat → Nat → Bool := fun id ch =>
+  if id = 0 then ch == 32 else if id = 1 then decide (97 ≤ ch ∧ ch ≤ 122) else decide (48 ≤ ch ∧ ch ≤ 57)
+
+/-- **Facts regenerated from the source on every run (query functions).**  `knownDistinctSets` compares its
+first argument with `SpaceClass`/`ECMASpaceClass` and its second with
+`DigitClass`/`WordClass`/`ECMADigitClass`/`ECMAWordClass` (what `Class.knownDistinctSets` mirrors); these six
+constant classes are constructed as `Consts.*Class` constructs them; and the ECMAScript space table is
+disjoint from the ECMAScript word and digit tables (`TableFacts`). -/
+theorem query_constants_expected :
+    RegexVerif.Generated.knownDistinctFirst = ["SpaceClass", "ECMASpaceClass"] ∧
+    RegexVerif.Generated.knownDistinctSecond = ["DigitClass", "WordClass", "ECMADigitClass", "ECMAWordClass"] ∧
+    RegexVerif.Generated.categoryClasses =
+      [("WordClass", false, false, [RegexVerif.Generated.wordCategoryText]),
+       ("NotWordClass", true, false, [RegexVerif.Generated.wordCategoryText]),
+       ("SpaceClass", false, false, [RegexVerif.Generated.spaceCategoryText]),
+       ("NotSpaceClass", true, false, [RegexVerif.Generated.spaceCategoryText]),
+       ("DigitClass", false, false, ["Nd"]), ("NotDigitClass", false, true, ["Nd"])] ∧
+    (RegexVerif.Generated.oldStringClasses.filter (fun c => c.1 = "ECMASpaceClass" ∨ c.1 = "ECMAWordClass" ∨ c.1 = "ECMADigitClass")) =
+      [("ECMAWordClass", RegexVerif.Generated.ecmaWord, false), ("ECMASpaceClass", RegexVerif.Generated.ecmaSpace, false),
+       ("ECMADigitClass", RegexVerif.Generated.ecmaDigit, false)] ∧
+    ∀ s w n, TableFacts (srcConsts s w n) := by
+  refine ⟨by decide, by decide, by decide, by decide, fun s w n => ⟨?_, ?_⟩⟩
+  · show rangesDisjoint (fromOldString RegexVerif.Generated.ecmaSpace false).ranges (fromOldString RegexVerif.Generated.ecmaWord false).ranges = true
+    decide
+  · show rangesDisjoint (fromOldString RegexVerif.Generated.ecmaSpace false).ranges (fromOldString RegexVerif.Generated.ecmaDigit false).ranges = true
+    decide
+
+/-- the ECMAScript tables as classes: `\s` = 9-13, 32, 160, 5760, 8192-8202, 8232-8233, 8239, 8287, 12288, 65279 -/
+example : (fromOldString RegexVerif.Generated.ecmaSpace false).ranges =
+    [(9, 13), (32, 32), (160, 160), (5760, 5760), (8192, 8202), (8232, 8233), (8239, 8239), (8287, 8287), (12288, 12288), (65279, 65279)] ∧
+    (fromOldString RegexVerif.Generated.ecmaWord true).ranges = [(0, 47), (58, 64), (91, 94), (96, 96), (123, maxRune)] ∧
+    (fromOldString [0] false) = { ranges := [(0, maxRune)], anything := true } ∧
+    -- the sizing quirk: an odd-length text starting with 0, negated, leaves a zero range at the end
+    (fromOldString [0, 5, 9] true).ranges = [(5, 8), (0, 0)] := by decide
+
+/-- **`MayOverlap` is sound: a `false` answer means the two classes share no rune.**  For ALL pairs of
+classes (sorted range lists and truthful bitmaps, as every compiled class has): the inverse case (one
+negated, one not, everything else equal — `!set1.equals(set2, true)`), the table of known distinct classes
+(`\s` against `\d`/`\w`, default and ECMAScript — under the stated facts about the category oracle, which leg
+`Kq-facts` checks against Go's `unicode` tables over all code points, and the regenerated table facts), and
+the enumeration of the category-free side through `CharIn` of the other.  This is the side condition under
+which `canBeMadeAtomic` makes a set loop atomic in front of a set (C05: `loop_atomic_disjoint`). -/
+theorem mayOverlap_sound (cat : Nat → Nat → Bool) (k : Consts) (hk : OracleFacts cat k) (ht : TableFacts k)
+    (a b : Class) (ha : Class.RangesOk a) (hab : BitmapOk cat a) (hb : Class.RangesOk b) (hbb : BitmapOk cat b)
+    (h : mayOverlap cat k a b = false) (r : Nat) (hr : r ≤ maxRune) :
+    ¬ (memAlg cat a r = true ∧ memAlg cat b r = true) := by
+  unfold mayOverlap at h
+  split at h
+  · cases h
+  split at h
+  · cases h
+  simp only [] at h
+  split at h
+  · -- one negated, one not: everything else is equal
+    rename_i hneg
+    have he : Class.equalsGo a b true = true := by simpa using h
+    obtain ⟨_, _, h3, h4, _, h6⟩ := equalsGo_spec cat a b true he
+    rintro ⟨ma, mb⟩
+    rw [memAlg_split] at ma mb
+    simp only [Bool.and_eq_true] at ma mb
+    have hp : a.flat.pos cat r = b.flat.pos cat r := by simp [Flat.pos, h3, h4]
+    have hn : a.flat.neg ≠ b.flat.neg := by simpa [Class.isNegated] using hneg
+    have h1 := ma.1
+    have h2 := mb.1
+    simp only [Flat.memAlg, hp] at h1 h2
+    revert h1 h2 hn
+    cases b.flat.pos cat r <;> cases a.flat.neg <;> cases b.flat.neg <;> simp
+  · rename_i hneg
+    split at h
+    · cases h
+    rename_i hna
+    have hna' : a.flat.neg = false := by simpa [Class.isNegated] using hna
+    have hnb' : b.flat.neg = false := by
+      have : a.flat.neg = b.flat.neg := by simpa [Class.isNegated] using hneg
+      rw [← this]; exact hna'
+    split at h
+    · -- the table of known distinct classes
+      rename_i hkd
+      rw [Bool.or_eq_true] at hkd
+      rcases hkd with hkd | hkd
+      · exact knownDistinct_sound cat k hk ht a b hkd r hr
+      · intro ⟨ma, mb⟩
+        exact knownDistinct_sound cat k hk ht b a hkd r hr ⟨mb, ma⟩
+    split at h
+    · -- enumerate b, look up in a
+      rename_i hcond
+      simp only [Bool.and_eq_true, Bool.not_eq_true', List.isEmpty_iff] at hcond
+      rintro ⟨ma, mb⟩
+      rw [memAlg_ranges_only cat b hnb' hcond.1 hcond.2] at mb
+      have := enum_false cat a b h r mb
+      rw [charIn_eq_memAlg cat a r ha hab, ma] at this
+      cases this
+    split at h
+    · rename_i hcond
+      simp only [Bool.and_eq_true, Bool.not_eq_true', List.isEmpty_iff] at hcond
+      rintro ⟨ma, mb⟩
+      rw [memAlg_ranges_only cat a hna' hcond.1 hcond.2] at ma
+      have := enum_false cat b a h r ma
+      rw [charIn_eq_memAlg cat b r hb hbb, mb] at this
+      cases this
+    · cases h
+
+/-- the toy oracle satisfies the facts; `\s` vs `\d` (known distinct), `[^abc]` vs `[abc]` (inverse), `[a-f]` vs
+`[g-k]` (enumeration) are declared disjoint; `[a-f]` vs `[f-k]` and `\w` vs `\d` are not -/
+example : OracleFacts toyCat (srcConsts 0 1 2) ∧
+    mayOverlap toyCat (srcConsts 0 1 2) (.leaf { cats := [(0, false)] }) (.leaf { cats := [(2, false)] }) = false ∧
+    mayOverlap toyCat (srcConsts 0 1 2) (.leaf { ranges := [(97, 99)], neg := true }) (.leaf { ranges := [(97, 99)] }) = false ∧
+    mayOverlap toyCat (srcConsts 0 1 2) (.leaf { ranges := [(97, 102)] }) (.leaf { ranges := [(103, 107)] }) = false ∧
+    mayOverlap toyCat (srcConsts 0 1 2) (.leaf { ranges := [(97, 102)] }) (.leaf { ranges := [(102, 107)] }) = true ∧
+    mayOverlap toyCat (srcConsts 0 1 2) (.leaf { cats := [(1, false)] }) (.leaf { cats := [(2, false)] }) = true := by
+  refine ⟨⟨?_, ?_, ?_, ?_, ?_, ?_⟩, by decide, by decide, by decide, by decide, by decide⟩
+  · intro r _ h; simp [toyCat, srcConsts] at h ⊢; omega
+  · intro r _ h; simp [toyCat, srcConsts] at h ⊢; omega
+  · intro r _ h
+    have : (fromOldString (srcConsts 0 1 2).ecmaSpace false).ranges = [(9, 13), (32, 32), (160, 160), (5760, 5760), (8192, 8202), (8232, 8233), (8239, 8239), (8287, 8287), (12288, 12288), (65279, 65279)] := by decide
+    rw [this] at h
+    simp [inRange] at h
+    simp [toyCat, srcConsts]; omega
+  · intro r _ h
+    have : (fromOldString (srcConsts 0 1 2).ecmaSpace false).ranges = [(9, 13), (32, 32), (160, 160), (5760, 5760), (8192, 8202), (8232, 8233), (8239, 8239), (8287, 8287), (12288, 12288), (65279, 65279)] := by decide
+    rw [this] at h
+    simp [inRange] at h
+    simp [toyCat, srcConsts]; omega
+  · intro r _ h
+    have : (fromOldString (srcConsts 0 1 2).ecmaWord false).ranges = [(48, 57), (65, 90), (95, 95), (97, 122)] := by decide
+    rw [this] at h
+    simp [inRange] at h
+    simp [toyCat, srcConsts]; omega
+  · intro r _ h
+    have : (fromOldString (srcConsts 0 1 2).ecmaDigit false).ranges = [(48, 57)] := by decide
+    rw [this] at h
+    simp [inRange] at h
+    simp [toyCat, srcConsts]; omega
+
+/-- **What `MayOverlap = true` means on the enumeration path: a common rune exists** (the answer is exact
+there, not merely conservative): both classes un-negated, not equal, no `anything` flag, not in the table,
+and `set2` without categories and subtraction. -/
+theorem mayOverlapByEnumeration_complete (cat : Nat → Nat → Bool) (a b : Class)
+    (ha : Class.RangesOk a) (hab : BitmapOk cat a) (hn : b.flat.neg = false) (hs : b.hasSub = false) (hc : b.flat.cats = [])
+    (h : mayOverlapByEnumeration cat a b = true) : ∃ r, memAlg cat a r = true ∧ memAlg cat b r = true := by
+  obtain ⟨ch, h1, h2⟩ := enum_true cat a b h
+  exact ⟨ch, by rw [← charIn_eq_memAlg cat a ch ha hab]; exact h2, by rw [memAlg_ranges_only cat b hn hs hc]; exact h1⟩
+
+example : mayOverlapByEnumeration toyCat (.leaf { cats := [(1, false)] }) (.leaf { ranges := [(90, 97)] }) = true := by decide
+
+/-- **`Equals` implies equal membership**, for every rune and every pair of classes (no precondition: the
+comparison is structural — `negate`, `anything`, ranges, categories, recursively the subtractor).  It is what
+`reduceConcatenationWithAdjacentLoops`, the writer's set table and `knownDistinctSets` rely on. -/
+theorem equals_spec (cat : Nat → Nat → Bool) (a b : Class) (h : a.equals b = true) (r : Nat) :
+    memAlg cat a r = memAlg cat b r :=
+  equalsGo_false_mem cat a b h r
+
+/-- **`equals(c2, ignoreNegate = true)`**: the two classes have the same positive part and equal
+subtractors; with equal `negate` they are the same set, with different `negate` the first is the complement
+of the second's head, minus the common subtractor — in particular they are disjoint. -/
+theorem equalsIgnoreNegate_spec (cat : Nat → Nat → Bool) (a b : Class) (h : Class.equalsGo a b true = true) (r : Nat) :
+    (a.flat.neg = b.flat.neg → memAlg cat a r = memAlg cat b r) ∧
+    (a.flat.neg ≠ b.flat.neg → memAlg cat a r = (!(b.flat.memAlg cat r) && !(b.subMem cat r))) := by
+  obtain ⟨_, _, h3, h4, _, h6⟩ := equalsGo_spec cat a b true h
+  have hp : a.flat.pos cat r = b.flat.pos cat r := by simp [Flat.pos, h3, h4]
+  rw [memAlg_split cat a, memAlg_split cat b, h6 r]
+  simp only [Flat.memAlg, hp]
+  constructor
+  · intro hn; rw [hn]
+  · intro hn
+    revert hn
+    cases a.flat.neg <;> cases b.flat.neg <;> simp
+
+example : Class.equalsGo (.minus { ranges := [(97, 122)], neg := true } (.leaf { ranges := [(101, 101)] }))
+      (.minus { ranges := [(97, 122)] } (.leaf { ranges := [(101, 101)] })) true = true ∧
+    (Class.leaf { ranges := [(97, 122)], neg := true }).equals (.leaf { ranges := [(97, 122)] }) = false ∧
+    -- a different subtractor is not ignored
+    Class.equalsGo (.minus { ranges := [(97, 122)], neg := true } (.leaf { ranges := [(101, 101)] }))
+      (.minus { ranges := [(97, 122)] } (.leaf { ranges := [(102, 102)] })) true = false := by decide
+
+/-- **`IsSingleton` ⇒ exactly one rune is a member, and it is `SingletonChar`.**  (`reduceSet` turns the set
+into `One`; the runner's `forwardcharnext` short-cut.) -/
+theorem isSingleton_spec (cat : Nat → Nat → Bool) (c : Class) (h : c.isSingleton = true) :
+    ∃ x, c.singletonChar = some x ∧ memAlg cat c x = true ∧ ∀ r, memAlg cat c r = true → r = x := by
+  obtain ⟨x, hx, hm⟩ := (singleton_reduce_mem cat c).1 h
+  exact ⟨x, hx, by simp [hm], fun r hr => by simpa [hm] using hr⟩
+
+/-- **`IsSingletonInverse` ⇒ exactly one rune is NOT a member, and it is `SingletonChar`** (`reduceSet` →
+`Notone`). -/
+theorem isSingletonInverse_spec (cat : Nat → Nat → Bool) (c : Class) (h : c.isSingletonInverse = true) :
+    ∃ x, c.singletonChar = some x ∧ memAlg cat c x = false ∧ ∀ r, memAlg cat c r = false → r = x := by
+  obtain ⟨x, hx, hm⟩ := (singleton_reduce_mem cat c).2 h
+  exact ⟨x, hx, by simp [hm], fun r hr => by simpa [hm] using hr⟩
+
+/-- **`SingletonChar` is defined whenever one of the two tests holds** (it indexes `ranges[0]` unguarded) and
+is then the first bound of the only range. -/
+theorem singletonChar_spec (c : Class) (h : c.isSingleton = true ∨ c.isSingletonInverse = true) :
+    ∃ x, c.singletonChar = some x ∧ c.flat.ranges = [(x, x)] := by
+  cases c with
+  | minus f s => simp [Class.isSingleton, Class.isSingletonInverse] at h
+  | leaf f =>
+    have : ∃ r, f.ranges = [r] ∧ r.1 = r.2 := by
+      rcases h with h | h <;>
+        (simp only [Class.isSingleton, Class.isSingletonInverse, Bool.and_eq_true] at h
+         obtain ⟨_, hr⟩ := h
+         match hf : f.ranges, hr with
+         | [r], hr => exact ⟨r, rfl, by simpa using hr⟩)
+    obtain ⟨r, h1, h2⟩ := this
+    refine ⟨r.1, by simp [Class.singletonChar, Class.flat, h1], ?_⟩
+    simp only [Class.flat, h1]
+    congr 1
+    exact Prod.ext rfl h2.symm
+
+example : (Class.leaf { ranges := [(65, 65)] }).isSingleton = true ∧ (Class.leaf { ranges := [(65, 65)] }).singletonChar = some 65 ∧
+    (Class.leaf { ranges := [(65, 66)] }).isSingleton = false ∧
+    (Class.minus { ranges := [(65, 65)] } (.leaf {})).isSingleton = false := by decide
+
+/-- **`IsEmpty` ⇒ no rune is a member — of the un-negated class** (membership of every rune is `negate`:
+a negated class without ranges, categories and subtraction matches everything).  `computeFirstCharClass`
+reads the flag as "no first character". -/
+theorem isEmpty_spec (cat : Nat → Nat → Bool) (c : Class) (h : c.isEmpty = true) (r : Nat) :
+    memAlg cat c r = c.isNegated := by
+  cases c with
+  | minus f s => simp [Class.isEmpty, Class.hasSub] at h
+  | leaf f =>
+    simp only [Class.isEmpty, Class.flat, Class.hasSub, Bool.and_eq_true, List.isEmpty_iff] at h
+    simp [memAlg, Flat.memAlg, Flat.pos, h.1.1, h.1.2, Class.isNegated, Class.flat]
+
+example : (Class.leaf {}).isEmpty = true ∧ (Class.leaf { neg := true }).isEmpty = true ∧
+    memAlg toyCat (Class.leaf { neg := true }) 5 = true := by decide
+
+/-- **`IsAnything` ⇒ every rune is a member — for an un-negated class without subtraction whose flag is
+truthful** (`AnyOk`: set only by `makeAnything` and `getCharSetFromOldString`, preserved by the building
+operations — `addSet_mem`, `caseEquiv_mem` take it as hypothesis).  The flag alone does not imply it: see the
+example (`[^\s\S]`); all callers use the flag conservatively (`MayOverlap` answers true, the prefix analysis
+drops the set). -/
+theorem isAnything_spec (cat : Nat → Nat → Bool) (c : Class) (h : c.isAnything = true) (hok : Class.AnyOk cat c)
+    (hn : c.isNegated = false) (hs : c.hasSubtraction = false) (r : Nat) (hr : r ≤ maxRune) :
+    memAlg cat c r = true := by
+  cases c with
+  | minus f s => simp [Class.hasSubtraction, Class.hasSub] at hs
+  | leaf f =>
+    simp only [Class.isAnything, Class.flat] at h
+    simp only [Class.isNegated, Class.flat] at hn
+    have := hok h r hr
+    simp [memAlg, Flat.memAlg, this, hn]
+
+/-- `[^\s\S]`: the base collapsed to `anything` while the class was parsed, `negate` stays: the flag is set
+and the class is empty -/
+example : (Class.leaf (({ neg := true } : Flat).addCategories [(0, false), (0, true)])).isAnything = true ∧
+    memAlg toyCat (Class.leaf (({ neg := true } : Flat).addCategories [(0, false), (0, true)])) 32 = false := by decide
+
+/-- **`IsMergeable` is what the alternation merge needs**: both classes un-negated and subtraction-free ⇒
+membership is the positive part alone, and `addSet` (what `reduceSingleLetterAndNestedAlternations` and the
+first-character analysis do with two mergeable classes) is exactly the union. -/
+theorem isMergeable_spec (cat : Nat → Nat → Bool) (a b : Class) (ha : a.isMergeable = true) (hb : b.isMergeable = true)
+    (hoa : a.flat.AnyOk cat) (hob : b.flat.AnyOk cat) (r : Nat) (hr : r ≤ maxRune) :
+    memAlg cat a r = a.flat.pos cat r ∧
+    memAlg cat (.leaf (a.flat.addSet cat false b.flat)) r = (memAlg cat a r || memAlg cat b r) := by
+  have key : ∀ c : Class, c.isMergeable = true → memAlg cat c r = c.flat.pos cat r ∧ c.flat.neg = false := by
+    intro c hc
+    simp only [Class.isMergeable, Class.isNegated, Class.hasSubtraction, Bool.and_eq_true, Bool.not_eq_true'] at hc
+    cases c with
+    | minus f s => simp [Class.hasSub] at hc
+    | leaf f =>
+      simp only [Class.flat] at hc
+      simp [memAlg, Flat.memAlg, Class.flat, hc.1]
+  obtain ⟨h1, h2⟩ := key a ha
+  obtain ⟨h3, _⟩ := key b hb
+  refine ⟨h1, ?_⟩
+  rw [h1, h3]
+  show (a.flat.addSet cat false b.flat).memAlg cat r = _
+  rw [Flat.addSet_mem cat false a.flat b.flat hoa hob r hr, h2]
+  simp
+
+example : (Class.leaf { ranges := [(97, 99)] }).isMergeable = true ∧ (Class.leaf { ranges := [(97, 99)], neg := true }).isMergeable = false ∧
+    (Class.minus { ranges := [(97, 99)] } (.leaf {})).isMergeable = false ∧
+    (({ ranges := [(97, 99)] } : Flat).addSet toyCat false { cats := [(2, false)] }) = { ranges := [(97, 99)], cats := [(2, false)] } := by decide
+
+/-- **`GetSetChars`: a non-nil answer lists exactly the members — exactly the NON-members when
+`IsNegated`** — with the subtraction factored in (a negated class with a subtraction is refused), at most
+`maxChars` of them, in strictly ascending order on canonical ranges.  These lists become the published
+first-character sets, the multi-prefix alternatives and the `IndexOfAny` arguments of the finders (C04/C03). -/
+theorem getSetChars_spec (cat : Nat → Nat → Bool) (c : Class) (k : Nat) (chars : List Nat)
+    (hl : Class.RangesOk c) (hb : BitmapOk cat c) (h : getSetChars cat c k = some chars) :
+    chars.length ≤ k ∧ (∀ r, r ∈ chars ↔ (memAlg cat c r != c.isNegated) = true) ∧
+      (Canon c.flat.ranges → chars.Pairwise (· < ·)) := by
+  obtain ⟨hc, hns, hlen, hch⟩ := getSetChars_some cat c k chars h
+  refine ⟨hlen, fun r => ?_, fun hcan => hch ▸ enumChars_sorted _ _ hcan⟩
+  rw [hch, mem_enumChars, charIn_eq_memAlg cat c r hl hb]
+  cases c with
+  | leaf f =>
+    simp only [Class.flat] at hc
+    simp only [Class.hasSubtraction, Class.hasSub, Class.flat, Class.isNegated, memAlg, Flat.memAlg, Flat.pos, hc,
+      inCats_nil, Bool.or_false, Bool.false_and, Bool.not_false, and_true]
+    cases inRanges f.ranges r <;> cases f.neg <;> simp
+  | minus f s =>
+    simp only [Class.flat] at hc
+    have hn : f.neg = false := by
+      cases hfn : f.neg
+      · rfl
+      · have := hns (by simp [Class.isNegated, Class.flat, hfn])
+        simp [Class.hasSubtraction, Class.hasSub] at this
+    simp only [Class.hasSubtraction, Class.hasSub, Class.flat, Class.isNegated, memAlg, Flat.memAlg, Flat.pos, hc, hn,
+      inCats_nil, Bool.or_false, Bool.true_and, Bool.not_not, Bool.bne_false]
+    cases inRanges f.ranges r <;> simp
+
+/-- `[a-e-[bd]]` → a, c, e; `[^x]` → x (to be read as "everything but"); a category, too many characters,
+negation together with subtraction → nil; work is counted before the subtraction is applied -/
+example : getSetChars toyCat (.minus { ranges := [(97, 101)] } (.leaf { ranges := [(98, 98), (100, 100)] })) 5 = some [97, 99, 101] ∧
+    getSetChars toyCat (.leaf { ranges := [(120, 120)], neg := true }) 5 = some [120] ∧
+    getSetChars toyCat (.leaf { ranges := [(120, 120)], cats := [(1, false)] }) 5 = none ∧
+    getSetChars toyCat (.leaf { ranges := [(97, 102)] }) 5 = none ∧
+    getSetChars toyCat (.minus { ranges := [(97, 101)], neg := true } (.leaf { ranges := [(98, 98)] })) 5 = none ∧
+    getSetChars toyCat (.minus { ranges := [(97, 101)] } (.leaf { ranges := [(98, 98), (100, 100)] })) 4 = none ∧
+    getSetChars toyCat (.leaf {}) 5 = some [] := by decide
+
+/-- **`GetIfNRanges(n)`: a non-nil answer is the whole range list, of length `n`, and the class is exactly
+those ranges — their complement when `IsNegated`** (no categories, no subtraction). -/
+theorem getIfNRanges_spec (cat : Nat → Nat → Bool) (c : Class) (n : Nat) (rs : List (Nat × Nat))
+    (h : getIfNRanges c n = some rs) :
+    rs = c.flat.ranges ∧ rs.length = n ∧ ∀ r, inRanges rs r = (memAlg cat c r != c.isNegated) := by
+  unfold getIfNRanges at h
+  split at h
+  · cases h
+  rename_i h1
+  split at h
+  · cases h
+  rename_i h2
+  split at h
+  · rename_i h3
+    simp only [Option.some.injEq] at h
+    have hrs : rs = c.flat.ranges := by rw [← h, ← h3, List.take_length]
+    refine ⟨hrs, by rw [hrs]; exact h3, fun r => ?_⟩
+    cases c with
+    | minus f s => simp [Class.hasSub] at h2
+    | leaf f =>
+      simp only [Class.flat, Bool.not_eq_true', List.isEmpty_iff, Bool.not_eq_false] at h1
+      have hc : f.cats = [] := by simpa using h1
+      simp only [hrs, Class.flat, Class.isNegated, memAlg, Flat.memAlg, Flat.pos, hc, inCats_nil, Bool.or_false]
+      cases inRanges f.ranges r <;> cases f.neg <;> rfl
+  · cases h
+
+example : getIfNRanges (.leaf { ranges := [(97, 102)], neg := true }) 1 = some [(97, 102)] ∧
+    getIfNRanges (.leaf { ranges := [(97, 102)] }) 2 = none ∧
+    getIfNRanges (.leaf { ranges := [(97, 102)], cats := [(1, false)] }) 1 = none ∧
+    getIfNRanges (.minus { ranges := [(97, 102)] } (.leaf {})) 1 = none := by decide
+
+/-- **`containsAsciiIgnoreCaseCharacter`: `true` ⇒ the class is exactly `{C, c}` for one ASCII letter**, and
+the slice it returns is `[C, c]` (upper case first: `TryGetOrdinalCaseInsensitiveString` writes
+`twoChars[0] | 0x20`, the multi-prefix analysis `setChars[1]`).  `isLetter` is `unicode.IsLetter`, assumed to
+be A-Z, a-z below U+007F (leg `Kq-facts`); the range list is canonical.  The published ordinal
+case-insensitive prefix is sound only because of this (cf. the seeded change C03-ascii-pair-nonletters: without
+the letter test `[@`]`, `[\[{]` would qualify). -/
+theorem containsAsciiIgnoreCaseCharacter_spec (cat : Nat → Nat → Bool) (isLetter : Nat → Bool) (c : Class)
+    (hl : Class.RangesOk c) (hb : BitmapOk cat c) (hcan : Canon c.flat.ranges)
+    (hL : ∀ r, r < maxASCII → isLetter r = asciiLetter r)
+    (h : (containsAsciiIgnoreCaseCharacter cat isLetter c).1 = true) :
+    ∃ u, 65 ≤ u ∧ u ≤ 90 ∧ (containsAsciiIgnoreCaseCharacter cat isLetter c).2 = some [u, u + 32] ∧
+      ∀ r, memAlg cat c r = true ↔ (r = u ∨ r = u + 32) := by
+  unfold containsAsciiIgnoreCaseCharacter at h ⊢
+  split at h
+  · cases h
+  rename_i hneg
+  simp only [hneg, Bool.false_eq_true, ↓reduceIte]
+  simp only [] at h
+  split at h
+  · rename_i a b hg
+    simp only [Bool.and_eq_true, decide_eq_true_eq, beq_iff_eq] at h
+    obtain ⟨⟨⟨⟨ha, hb'⟩, hor⟩, hla⟩, hlb⟩ := h
+    obtain ⟨_, hmem, hsorted⟩ := getSetChars_spec cat c 3 [a, b] hl hb hg
+    have hlt : a < b := by
+      have := hsorted hcan
+      simpa using this
+    rw [hL a ha] at hla
+    rw [hL b hb'] at hlb
+    obtain ⟨h1, h2, h3⟩ := ascii_pair a b hla hlb hlt hor
+    refine ⟨a, h1, h2, by rw [hg, h3], fun r => ?_⟩
+    have := hmem r
+    have hn : c.isNegated = false := by simpa using hneg
+    simp only [hn, Bool.bne_false, List.mem_cons, List.not_mem_nil, or_false] at this
+    rw [← this, h3]
+  · cases h
+
+/-- `[Kk]` qualifies, with the upper-case letter first; `[@`]` (same `| 0x20`, not letters), `[k]`, `[^Kk]`,
+`[Kkx]` do not -/
+example :
+    let isL : Nat → Bool := asciiLetter
+    containsAsciiIgnoreCaseCharacter toyCat isL (.leaf { ranges := [(75, 75), (107, 107)] }) = (true, some [75, 107]) ∧
+    (containsAsciiIgnoreCaseCharacter toyCat isL (.leaf { ranges := [(64, 64), (96, 96)] })).1 = false ∧
+    (containsAsciiIgnoreCaseCharacter toyCat isL (.leaf { ranges := [(107, 107)] })).1 = false ∧
+    containsAsciiIgnoreCaseCharacter toyCat isL (.leaf { ranges := [(75, 75), (107, 107)], neg := true }) = (false, none) ∧
+    (containsAsciiIgnoreCaseCharacter toyCat isL (.leaf { ranges := [(75, 75), (107, 107), (120, 120)] })).1 = false ∧
+    Canon [(75, 75), (107, 107)] := by
+  refine ⟨by decide, by decide, by decide, by decide, by decide, ?_⟩
+  simp [Canon]
+
+/-- **`IsUnicodeCategoryOfSmallCharCount`: `isSmall` ⇒ the characters are exactly the members — the
+non-members when `negated`.**  For the white-space classes this needs that `whitespaceChars` is the white-space
+category (checked by leg `Kq-facts` against `unicode.IsSpace` over all code points). -/
+theorem isUnicodeCategoryOfSmallCharCount_spec (cat : Nat → Nat → Bool) (k : Consts) (c : Class)
+    (hws : ∀ r, r ≤ maxRune → (r ∈ k.whitespaceChars ↔ cat k.space r = true))
+    (chars : List Nat) (negated : Bool) (d : Nat)
+    (h : isUnicodeCategoryOfSmallCharCount k c = some (chars, negated, d)) (r : Nat) (hr : r ≤ maxRune) :
+    r ∈ chars ↔ (memAlg cat c r != negated) = true := by
+  unfold isUnicodeCategoryOfSmallCharCount at h
+  split at h
+  · rename_i h1
+    obtain ⟨x, hx, hm⟩ := (singleton_reduce_mem cat c).1 h1
+    simp only [hx, Option.getD_some, Option.some.injEq, Prod.mk.injEq] at h
+    obtain ⟨rfl, rfl, _⟩ := h
+    simp [hm]
+  split at h
+  · rename_i h1
+    obtain ⟨x, hx, hm⟩ := (singleton_reduce_mem cat c).2 h1
+    simp only [hx, Option.getD_some, Option.some.injEq, Prod.mk.injEq] at h
+    obtain ⟨rfl, rfl, _⟩ := h
+    simp [hm]
+  split at h
+  · rename_i h1
+    simp only [Option.some.injEq, Prod.mk.injEq] at h
+    obtain ⟨rfl, rfl, _⟩ := h
+    rw [mem_of_equals_cat cat c k.space h1 r, hws r hr]
+    simp
+  split at h
+  · rename_i h1
+    simp only [Option.some.injEq, Prod.mk.injEq] at h
+    obtain ⟨rfl, rfl, _⟩ := h
+    rw [equals_spec cat c _ h1 r, hws r hr]
+    simp [Consts.notSpaceClass, memAlg, Flat.memAlg, Flat.pos, fromCategoryString, inCats, catAccepts]
+  · cases h
+
+example : isUnicodeCategoryOfSmallCharCount (srcConsts 0 1 2) (.leaf { cats := [(0, false)], neg := true }) =
+      some (RegexVerif.Generated.whitespaceChars, true, 1) ∧
+    isUnicodeCategoryOfSmallCharCount (srcConsts 0 1 2) (.leaf { ranges := [(65, 65)], neg := true }) = some ([65], true, 0) ∧
+    isUnicodeCategoryOfSmallCharCount (srcConsts 0 1 2) (.leaf { cats := [(2, false)] }) = none := by decide
+
+/-- **`GetIfOnlyUnicodeCategories`: a non-nil answer `(cats, negate)` reads "in one of the listed categories,
+xor `negate`" — when the entries are un-negated or there is exactly one.**  For SEVERAL negated entries the
+class is a union of complements while the answer reads as the complement of a union: see
+`getIfOnlyUnicodeCategories_two_negated`.  (No caller inside the engine.) -/
+theorem getIfOnlyUnicodeCategories_spec (cat : Nat → Nat → Bool) (k : Consts) (c : Class)
+    (cats : List (Nat × Bool)) (negate : Bool) (h : getIfOnlyUnicodeCategories k c = some (cats, negate))
+    (hshape : (∀ ct ∈ cats, ct.2 = false) ∨ cats.length = 1) (r : Nat) :
+    memAlg cat c r = (cats.any (fun ct => cat ct.1 r) != negate) := by
+  unfold getIfOnlyUnicodeCategories at h
+  split at h
+  · cases h
+  rename_i h1
+  split at h
+  · cases h
+  rename_i h2
+  split at h
+  · cases h
+  rename_i c0 rest hcs
+  simp only [] at h
+  split at h
+  · cases h
+  rename_i hall
+  simp only [Option.some.injEq, Prod.mk.injEq] at h
+  obtain ⟨rfl, rfl⟩ := h
+  cases c with
+  | minus f s => simp [Class.hasSub] at h1
+  | leaf f =>
+    simp only [Class.flat] at hcs h2 hall hshape ⊢
+    have hr : f.ranges = [] := by simpa using h2
+    simp only [memAlg, Flat.memAlg, Flat.pos, hr, inRanges_nil, Bool.false_or]
+    rcases hshape with hs | hs
+    · have key : ∀ (l : List (Nat × Bool)), (∀ ct ∈ l, ct.2 = false) → inCats cat l r = l.any (fun ct => cat ct.1 r) := by
+        intro l
+        induction l with
+        | nil => intro _; rfl
+        | cons x xs ih =>
+          intro hx
+          simp only [inCats_cons, List.any_cons, catAccepts]
+          rw [ih (fun ct hct => hx ct (List.mem_cons_of_mem _ hct)), hx x (List.mem_cons_self ..)]
+          simp
+      have := key f.cats hs
+      have h0 : c0.2 = false := hs c0 (by rw [hcs]; exact List.mem_cons_self ..)
+      rw [this, h0]; simp
+    · rw [hcs] at hs ⊢
+      have : rest = [] := by simpa using hs
+      subst this
+      simp only [inCats, catAccepts, List.any_cons, List.any_nil, Bool.or_false]
+      cases cat c0.1 r <;> cases c0.2 <;> cases f.neg <;> rfl
+
+/-- the counter-instance: `[\P{1}\P{2}]` (toy categories 1 = a-z, 2 = 0-9) contains every rune (none is in
+both), the answer `([\P{1}, \P{2}], negate = true)` read as "not in category 1 or 2" excludes `a` -/
+theorem getIfOnlyUnicodeCategories_two_negated :
+    getIfOnlyUnicodeCategories (srcConsts 0 100 2) (.leaf { cats := [(1, true), (2, true)] }) = some ([(1, true), (2, true)], true) ∧
+    memAlg toyCat (.leaf { cats := [(1, true), (2, true)] }) 97 = true ∧
+    (([(1, true), (2, true)] : List (Nat × Bool)).any (fun ct => toyCat ct.1 97) != true) = false := by decide
+
+example : getIfOnlyUnicodeCategories (srcConsts 0 100 2) (.leaf { cats := [(1, false), (2, false)], neg := true }) = some ([(1, false), (2, false)], true) ∧
+    getIfOnlyUnicodeCategories (srcConsts 0 100 2) (.leaf { cats := [(0, false)] }) = none ∧
+    getIfOnlyUnicodeCategories (srcConsts 0 100 2) (.leaf { cats := [(1, false), (2, true)] }) = none := by decide
+
+/-- **The serialisation round trip: `NewCharSetRuntime(Hash(c))` is `c`** — structurally (every level's
+`negate`, `anything`, ranges and categories; as `Copy()` it carries neither the `building` mark nor the bitmap)
+and therefore with the same membership — for classes whose range endpoints are Unicode scalar values (the hash
+writes them with `WriteRune`, i.e. as UTF-8), whose category names are at most 127 bytes long and not empty
+when negated (the `int8` length carries `Negate` in its sign), with fewer than 2³¹ ranges and categories.
+`nameOf`/`idOf` spell category names out and back; `fuel` is the recursion budget of the model (the driver
+uses the length of the hash, which always suffices: `hash_length`).  The writer keys its set table by this
+string and the code generator reads classes back from it. -/
+theorem hash_roundtrip (cat : Nat → Nat → Bool) (nameOf : Nat → List Nat) (idOf : List Nat → Nat) (c : Class)
+    (hok : Class.HashOk nameOf idOf c) :
+    newCharSetRuntime idOf (Class.hash nameOf c).length (Class.hash nameOf c) = c.copy ∧
+    ∀ r, memAlg cat (newCharSetRuntime idOf (Class.hash nameOf c).length (Class.hash nameOf c)) r = memAlg cat c r := by
+  have h := newCharSetRuntime_hash nameOf idOf c _ hok (hash_length nameOf c)
+  exact ⟨h, fun r => by rw [h, memAlg_copy]⟩
+
+/-- `[^a-cé-[\p{7}x]]` with the name of category 7 spelled "Lu": the hash and the way back -/
+example :
+    let nameOf : Nat → List Nat := fun _ => [76, 117]
+    let idOf : List Nat → Nat := fun _ => 7
+    let c : Class := .minus { ranges := [(97, 99), (233, 233)], neg := true } (.leaf { ranges := [(120, 120)], cats := [(7, true)] })
+    Class.HashOk nameOf idOf c ∧
+    Class.hash nameOf c = [1, 2, 0, 0, 0, 0, 0, 0, 0, 97, 99, 195, 169, 195, 169, 0, 1, 0, 0, 0, 1, 0, 0, 0, 120, 120, 254, 76, 117] ∧
+    newCharSetRuntime idOf 29 (Class.hash nameOf c) = c := by
+  refine ⟨⟨⟨by decide, by decide, ?_, by simp⟩, ⟨by decide, by decide, ?_, ?_⟩⟩, by decide, by decide⟩
+  · intro r hr; simp at hr; rcases hr with rfl | rfl <;> simp [Scalar, maxRune]
+  · intro r hr; simp at hr; subst hr; simp [Scalar, maxRune]
+  · intro ct hct; simp at hct; subst hct; simp [CatOk]
+
+/-- **The scalar-value hypothesis is needed (D48): a surrogate endpoint does not survive the hash.**
+`[\uD800]` and `[\uD801]` have the same hash (both endpoints are written as U+FFFD), the round trip yields
+`[�]`, and membership of U+D800 is lost. -/
+theorem hash_surrogate_counterexample :
+    let nameOf : Nat → List Nat := fun _ => []
+    let idOf : List Nat → Nat := fun _ => 0
+    let c1 : Class := .leaf { ranges := [(0xD800, 0xD800)] }
+    let c2 : Class := .leaf { ranges := [(0xD801, 0xD801)] }
+    Class.hash nameOf c1 = Class.hash nameOf c2 ∧
+    newCharSetRuntime idOf 20 (Class.hash nameOf c1) = .leaf { ranges := [(0xFFFD, 0xFFFD)] } ∧
+    memAlg toyCat c1 0xD800 = true ∧ memAlg toyCat (newCharSetRuntime idOf 20 (Class.hash nameOf c1)) 0xD800 = false := by
+  decide
+
+/-- **`Copy()` keeps membership and every query answer that depends on the structure** (`negate`, `anything`,
+ranges, categories at every level): the copy `Equals` the original.  (That the copy shares no storage with
+the original — what the callers want it for — is not expressible in this value-level model; the slices are
+rebuilt with `append(nil…, …)` and the subtractor is copied recursively, leg Kq compares the dumps.) -/
+theorem copy_spec (cat : Nat → Nat → Bool) (c : Class) :
+    c.copy.equals c = true ∧ ∀ r, memAlg cat c.copy r = memAlg cat c r := by
+  refine ⟨?_, fun r => memAlg_copy cat c r⟩
+  induction c with
+  | leaf f => simp [Class.copy, Flat.copy, Class.equals, Class.equalsGo, Flat.eqFields]
+  | minus f s ih =>
+    simp only [Class.equals] at ih
+    simp [Class.copy, Flat.copy, Class.equals, Class.equalsGo, Flat.eqFields, ih]
+
+example : (Class.minus { ranges := [(97, 99)], building := true, ascii := some (1, 2) } (.leaf { cats := [(1, true)] })).copy =
+    .minus { ranges := [(97, 99)] } (.leaf { cats := [(1, true)] }) := by decide
+
+/-- **Every written class meets the structural hypotheses of the query theorems**: parsed as `scanCharSet`
+does (no IgnoreCase, nested subtraction, items with non-empty ranges and the source's POSIX tables) it has
+sorted range lists on every level, no (hence no untruthful) bitmap — `MayOverlap` runs while the tree is
+reduced, before `prepareASCIIBitmap` — and its membership is set algebra over its parts. -/
+theorem parsed_class_wellformed (cat : Nat → Nat → Bool) (a : Ast) (hok : ∀ it ∈ a.items, it.Wf ∧ it.Ok) :
+    Class.RangesOk (strip (Ast.parse cat a)) ∧ BitmapOk cat (strip (Ast.parse cat a)) ∧
+      ∀ ch, ch ≤ maxRune → memAlg cat (strip (Ast.parse cat a)) ch = Ast.mem cat a ch := by
+  have hr : Class.RangesOk (Ast.parse cat a) ∧ ∀ ch, ch ≤ maxRune → memAlg cat (Ast.parse cat a) ch = Ast.mem cat a ch := by
+    induction a with
+    | leaf neg items =>
+      have h1 : ∀ it ∈ items, it.Wf ∧ it.Ok := fun it hit => hok it hit
+      exact ⟨(build_canonical cat neg items false h1).2, fun ch hch => build_mem cat neg items false (fun it hit => (h1 it hit).2) ch hch⟩
+    | minus neg items sub ih =>
+      have h1 : ∀ it ∈ items, it.Wf ∧ it.Ok := fun it hit => hok it (List.mem_append_left _ hit)
+      obtain ⟨ih1, ih2⟩ := ih (fun it hit => hok it (List.mem_append_right _ hit))
+      refine ⟨⟨(build_canonical cat neg items true h1).2, ih1⟩, fun ch hch => ?_⟩
+      simp only [Ast.parse, memAlg, Ast.mem, ih2 ch hch, build_mem cat neg items true (fun it hit => (h1 it hit).2) ch hch]
+  exact ⟨rangesOk_strip _ hr.1, bitmapOk_strip cat _, fun ch hch => by rw [memAlg_strip, hr.2 ch hch]⟩
+
+/-- **End to end for written classes: two class expressions for which `MayOverlap` of their parsed forms is
+`false` have no rune in common — in the set algebra of their written parts.**  No hypothesis about the
+`CharSet`s is left; what remains are the facts about the category oracle and the regenerated tables. -/
+theorem mayOverlap_sound_parsed (cat : Nat → Nat → Bool) (k : Consts) (hk : OracleFacts cat k) (ht : TableFacts k)
+    (a b : Ast) (hoka : ∀ it ∈ a.items, it.Wf ∧ it.Ok) (hokb : ∀ it ∈ b.items, it.Wf ∧ it.Ok)
+    (h : mayOverlap cat k (strip (Ast.parse cat a)) (strip (Ast.parse cat b)) = false) (r : Nat) (hr : r ≤ maxRune) :
+    ¬ (Ast.mem cat a r = true ∧ Ast.mem cat b r = true) := by
+  obtain ⟨a1, a2, a3⟩ := parsed_class_wellformed cat a hoka
+  obtain ⟨b1, b2, b3⟩ := parsed_class_wellformed cat b hokb
+  rw [← a3 r hr, ← b3 r hr]
+  exact mayOverlap_sound cat k hk ht _ _ a1 a2 b1 b2 h r hr
+
+/-- `[a-fx]` and `[g-z-[x]]` are declared disjoint (enumeration of the first inside the second) -/
+example :
+    let a : Ast := .leaf false [.range 97 102, .range 120 120]
+    let b : Ast := .minus false [.range 103 122] (.leaf false [.range 120 120])
+    (∀ it ∈ a.items, it.Wf ∧ it.Ok) ∧ (∀ it ∈ b.items, it.Wf ∧ it.Ok) ∧
+    mayOverlap toyCat (srcConsts 0 1 2) (strip (Ast.parse toyCat a)) (strip (Ast.parse toyCat b)) = false := by
+  refine ⟨?_, ?_, by decide⟩
+  · intro it hit; simp [Ast.items] at hit; rcases hit with rfl | rfl <;> simp [Item.Wf, Item.Ok]
+  · intro it hit; simp [Ast.items] at hit; rcases hit with rfl | rfl <;> simp [Item.Wf, Item.Ok]
 
 end RegexVerif.Props.C16
